@@ -22,6 +22,21 @@ def digest_of_file(sym, alg, max_size):
     sym.check("lower-case", got == got.lower())
 
 
+def digest_after_rewrite(sym, alg):
+    """the digest is that of the content the file has when it is computed: a file that was hashed before and then rewritten in
+    place (same size; the modification time may fall into the same second or be preserved) is hashed again"""
+    path, size = sym.symbolic_file("image", 2 * MIB + 2)
+    sym.assume(size >= 1)
+    first = compute_checksum(path, alg)
+    sym.cover("computed")
+    sym.rewrite_file(path)
+    got = compute_checksum(path, alg)
+    with open(path, "rb") as f:
+        data = f.read()
+    want = hashlib.new(alg, data).hexdigest()
+    sym.check("digest-of-the-current-content", got == want)
+
+
 NAME = [["a", "z"], ["A", "Z"], ["0", "9"], "_", "-"]
 
 
@@ -192,6 +207,8 @@ def jobs(tier, seed):
     algs = ["sha256", "md5", "sha1", "sha512", "sha224", "sha384", "blake2b", "sha3_256"] if big else ["sha256", "md5", ["sha1", "sha512", "blake2b"][seed % 3]]
     for a in algs:
         out.append({"harness": "digest_of_file", "params": {"alg": a, "max_size": (5 if big else 3) * MIB + 2}})
+    for a in algs[:2]:
+        out.append({"harness": "digest_after_rewrite", "params": {"alg": a}})
     kinds = ["name", ".", "..", ""]
     import itertools
     combos = [c for n in (1, 2, 3, 4) for c in itertools.product(kinds, repeat=n) if ("name" in c or n <= 2) and c[0] != ""]
@@ -213,11 +230,13 @@ def jobs(tier, seed):
 
 
 META = {
-    "expected_covers": {"digest_of_file": ["computed"], "add_computed": ["computed"], "add_path": ["called"], "read_section": ["read", "accepted"], "image_add_checksum": ["called"]},
+    "expected_covers": {"digest_after_rewrite": ["computed"], "digest_of_file": ["computed"], "add_computed": ["computed"], "add_path": ["called"], "read_section": ["read", "accepted"], "image_add_checksum": ["called"]},
     "assumptions": [
         "compute_checksum: the file has a symbolic size up to 3 MiB + 2 (thorough 5 MiB + 2) and unmodelled content; hashlib is uninterpreted - what is decided is that the library "
         "feeds it exactly the bytes [0, size) in order, for every size (both sides of every 1 MiB chunk boundary) and for the listed algorithm names; "
         "contract: update(a); update(b) == update(a+b), read(k) returns min(k, rest) bytes",
+        "digest_after_rewrite: the file is hashed, rewritten in place with other content of the same size (>= 1 byte) and an arbitrary modification time, and hashed again; "
+        "contract: different content => different digest",
         "Checksums.add: paths of 1-4 components, each '.', '..', empty or a symbolic name over [A-Za-z0-9_-]; os.path.normpath modelled on such ropes (the C implementation cannot be interpreted); "
         "the expected key comes from an independent reference normalisation in the harness",
         "Checksums.add computing the digest itself (root_dir given): concrete component names, the same shapes of redundant components, the file of symbolic size "
